@@ -99,13 +99,13 @@ def _ids(root):
 
 
 API = ['iterate', 'set', 'get', 'replace_int', 'replace_int_nodeepcopy', 'replace_cfg', 'replace_cfg_nodeepcopy',
-       'replace_equal_nodeepcopy', 'replace_equal']
+       'replace_equal_nodeepcopy', 'replace_equal', 'set_two']
 
 
 def c15_nodes(api: int, f: int, ms: bool, bt: int, w: int, c0: int, c1: int, c2: int, c3: int, k0: bool, k1: bool,
               k2: bool, k3: bool, t1x: int, t2x: int, t2y: int, t3x: int, t3y: int, lv: int, v: int) -> bool:
   """
-  require: 0 <= api <= 8 and 0 <= f <= 4 and 0 <= bt <= 2 and 0 <= w <= 5
+  require: 0 <= api <= 9 and 0 <= f <= 4 and 0 <= bt <= 2 and 0 <= w <= 5
   require: 0 <= c0 <= 4 and 0 <= c1 <= 4 and 0 <= c2 <= 4 and 0 <= c3 <= 4
   require: -1 <= t1x <= 0 and -1 <= t2x <= 1 and -1 <= t2y <= 1 and -1 <= t3x <= 2 and -1 <= t3y <= 2
   """
@@ -131,6 +131,19 @@ def c15_nodes(api: int, f: int, ms: bool, bt: int, w: int, c0: int, c1: int, c2:
         if 'z' not in args or args['z'] != v or type(args['z']) is not type(v):
           return False
         if args['x'] is not snap[i]['x'] or args['y'] is not snap[i]['y']:
+          return False
+      else:
+        if set(args) != set(snap[i]) or any(args[k] is not snap[i][k] for k in args):
+          return False
+    return True
+  if api == 9:
+    # several attributes in one call; the first assignment detaches whatever the x slots held (possibly other matching
+    # nodes): every node that matched when set() was called still receives every attribute
+    sel.set(x=v, z=v + 1)
+    for i in range(4):
+      args = nodes[i].__arguments__
+      if i in M:
+        if 'z' not in args or args['z'] != v + 1 or args['x'] != v or args['y'] is not snap[i]['y']:
           return False
       else:
         if set(args) != set(snap[i]) or any(args[k] is not snap[i][k] for k in args):
@@ -260,7 +273,7 @@ def c15_tag_iter(mask: int, setmask: int, q: int, shared: bool, v: int) -> bool:
 
 def obligations(tier, seed):
   cubes = []
-  for api in range(9):
+  for api in range(10):
     for f in range(NCALL):
       for ms in (False, True):
         for bt in range(3):
@@ -284,7 +297,7 @@ def obligations(tier, seed):
                t1x=0, t2x=1, t2y=0, t3x=2, t3y=1, lv=3, v=50)
   return [
       Obligation('c15_nodes', c15_nodes, cubes, timeout=t, path_timeout=40, smoke=smoke,
-                 extra_smokes=[dict(smoke, api=a, f=a % 5, bt=a % 3, w=a % 6, ms=bool(a % 2)) for a in range(9)] +
+                 extra_smokes=[dict(smoke, api=a, f=a % 5, bt=a % 3, w=a % 6, ms=bool(a % 2)) for a in range(10)] +
                  [dict(smoke, api=a, f=4, c0=4, c1=4, c2=4, c3=0, bt=0) for a in (0, 1, 3, 7)] +
                  [dict(smoke, api=7, f=2, c0=2, c1=2, c2=0, c3=0, t3x=1, t3y=-1, t2x=-1, t2y=-1, t1x=-1, bt=0)] +
                  [dict(smoke, api=5, f=1, c3=0, c2=2, c1=1, c0=3, t3x=2, t3y=0, t2x=1, t2y=0)]),
